@@ -1,0 +1,56 @@
+//! Verification hooks (compiled only with `--cfg qvnt_verif`).
+//!
+//! * a seedable stand-in for `rand::thread_rng()` so that measurement
+//!   histories can be replayed bit for bit;
+//! * a recorder for the scaled normal draws of `QReg::sample_all`.
+
+use std::{cell::RefCell, sync::Mutex};
+
+use rand::{rngs::StdRng, Error, RngCore, SeedableRng};
+
+thread_local! {
+    static RNG: RefCell<StdRng> = RefCell::new(StdRng::seed_from_u64(0));
+}
+
+static NORMALS: Mutex<Vec<Vec<f64>>> = Mutex::new(Vec::new());
+
+/// Re-seed the calling thread's generator.
+pub fn seed(seed: u64) {
+    RNG.with(|rng| *rng.borrow_mut() = StdRng::seed_from_u64(seed));
+}
+
+/// Handle to the calling thread's seedable generator.
+pub struct ThreadRng;
+
+/// Drop-in for `rand::thread_rng()`.
+pub fn thread_rng() -> ThreadRng {
+    ThreadRng
+}
+
+impl RngCore for ThreadRng {
+    fn next_u32(&mut self) -> u32 {
+        RNG.with(|rng| rng.borrow_mut().next_u32())
+    }
+
+    fn next_u64(&mut self) -> u64 {
+        RNG.with(|rng| rng.borrow_mut().next_u64())
+    }
+
+    fn fill_bytes(&mut self, dest: &mut [u8]) {
+        RNG.with(|rng| rng.borrow_mut().fill_bytes(dest))
+    }
+
+    fn try_fill_bytes(&mut self, dest: &mut [u8]) -> Result<(), Error> {
+        RNG.with(|rng| rng.borrow_mut().try_fill_bytes(dest))
+    }
+}
+
+/// Called by `sample_all` with its vector of `sqrt(p_i) * g_i`.
+pub fn record_normals(n: &[f64]) {
+    NORMALS.lock().unwrap().push(n.to_vec());
+}
+
+/// Take (and clear) everything recorded so far.
+pub fn take_normals() -> Vec<Vec<f64>> {
+    std::mem::take(&mut *NORMALS.lock().unwrap())
+}
